@@ -14,7 +14,9 @@ import (
 	"strings"
 	"sync"
 	"sync/atomic"
+	"syscall"
 	"time"
+	"unsafe"
 
 	"github.com/hashicorp/eventlogger"
 
@@ -552,6 +554,180 @@ func c08Crash(run *rt.Run) {
 				os.Remove(ackp)
 			}
 		}
+		os.RemoveAll(base)
+	}
+}
+
+// ---- retention next to a rotated file that cannot be removed (immutable inode) ---------------------------------
+//
+// "Only files removed by the configured retention limit may be missing, in which case what remains is a suffix of
+// the acknowledged sequence": when the oldest stale file cannot be unlinked, removing the newer stale files all the
+// same leaves a hole. Several stale files at one rotation are produced with Reopen (timestamped naming: every
+// Reopen starts a new file and prunes nothing).
+
+const (
+	fsIocGetFlags = 0x80086601
+	fsIocSetFlags = 0x40086602
+	fsImmutableFl = 0x10
+)
+
+func setImmutable(path string, on bool) error {
+	f, err := os.Open(path)
+	if err != nil {
+		return err
+	}
+	defer f.Close()
+	var flags int64
+	if _, _, e := syscall.Syscall(syscall.SYS_IOCTL, f.Fd(), fsIocGetFlags, uintptr(unsafe.Pointer(&flags))); e != 0 {
+		return e
+	}
+	if on {
+		flags |= fsImmutableFl
+	} else {
+		flags &^= fsImmutableFl
+	}
+	if _, _, e := syscall.Syscall(syscall.SYS_IOCTL, f.Fd(), fsIocSetFlags, uintptr(unsafe.Pointer(&flags))); e != 0 {
+		return e
+	}
+	return nil
+}
+
+func c08Undeletable(run *rt.Run) {
+	r := run.Rand()
+	ctx := context.Background()
+	n := run.N(24, 600)
+	for i := 0; i < n && !run.Stop(); i++ {
+		cr := r.Fork()
+		dir, _ := os.MkdirTemp("", "fsimm")
+		cfg := fcfg{MaxBytes: rt.Pick(cr, []int{40, 120}), MaxFiles: cr.Range(1, 2), FileName: "audit.log"}
+		sink := &eventlogger.FileSink{Path: dir, FileName: cfg.FileName, MaxBytes: cfg.MaxBytes, MaxFiles: cfg.MaxFiles}
+		var acked []string
+		var hist []string
+		write := func(l int) {
+			id := fmt.Sprintf("u%dn%d", i, len(hist))
+			_, err := sink.Process(ctx, &eventlogger.Event{Type: "t", Formatted: map[string][]byte{"json": frame(id, genBody(cr, l))}})
+			hist = append(hist, fmt.Sprintf("write(%s,%d) -> %v", id, l, err))
+			if err == nil {
+				acked = append(acked, id)
+			}
+		}
+		// several files without any pruning
+		nfiles := cfg.MaxFiles + cr.Range(2, 3)
+		for k := 0; k < nfiles; k++ {
+			write(cr.Range(8, 30))
+			if err := sink.Reopen(); err != nil {
+				hist = append(hist, "Reopen -> "+err.Error())
+			} else {
+				hist = append(hist, "Reopen")
+			}
+			time.Sleep(time.Millisecond)
+		}
+		// the oldest file becomes undeletable
+		files, _, _ := readAll(dir, nil)
+		oldest, oldestTS := "", int64(-1)
+		for nme := range files {
+			if ts, ok := cfg.inNamespace(nme); ok && ts > 0 && (oldestTS < 0 || ts < oldestTS) {
+				oldest, oldestTS = nme, ts
+			}
+		}
+		if oldest == "" {
+			run.Inconclusive("no rotated file found for the immutable-file scenario")
+			os.RemoveAll(dir)
+			continue
+		}
+		if err := setImmutable(filepath.Join(dir, oldest), true); err != nil {
+			run.Add("immutable_flag_unsupported", 1)
+			os.RemoveAll(dir)
+			continue
+		}
+		hist = append(hist, "external: chattr +i "+oldest)
+		defer setImmutable(filepath.Join(dir, oldest), false)
+		// rotations with pruning
+		for k := 0; k < cr.Range(2, 4); k++ {
+			write(cfg.MaxBytes)
+			write(cr.Range(8, 30))
+		}
+		files, _, _ = readAll(dir, nil)
+		setImmutable(filepath.Join(dir, oldest), false)
+		present := map[string]bool{}
+		for _, rs := range files {
+			for _, p := range rs {
+				present[p.ID] = true
+			}
+		}
+		first := -1
+		for k, id := range acked {
+			if present[id] {
+				first = k
+				break
+			}
+		}
+		var names []string
+		for nme := range files {
+			names = append(names, nme)
+		}
+		sort.Strings(names)
+		for k := first; first >= 0 && k < len(acked); k++ {
+			if !present[acked[k]] {
+				run.Violation("history-pattern:not-a-suffix", fmt.Sprintf("acknowledged record %s is missing although the older record %s is still there: what remains after retention next to an undeletable file is not a suffix of the acknowledged sequence", acked[k], acked[first]),
+					map[string]any{"config": cfg.String(), "history": hist, "undeletable": oldest, "files": names, "acked": acked})
+				break
+			}
+		}
+		run.Add("undeletable_file_runs", 1)
+		run.Eval(fmt.Sprintf("immutable|%d|%d|%d", cfg.MaxBytes, cfg.MaxFiles, nfiles))
+		os.RemoveAll(dir)
+	}
+}
+
+// ---- acknowledged events next to persistent write faults (strace error injection in a child) -----------------
+//
+// From the k-th write of the writer's thread on every write fails: the sink's retry fails as well, so none of those
+// events may be acknowledged; every acknowledged one must be in the files, whole and once.
+func c08WriteFaults(run *rt.Run) {
+	child := os.Getenv("VERIF_AUX_FSWRITER")
+	if child == "" {
+		return
+	}
+	r := run.Rand()
+	n := run.N(12, 300)
+	for i := 0; i < n && !run.Stop(); i++ {
+		cr := r.Fork()
+		w := crashWorkload{Writers: 1, Records: 12, MaxBytes: rt.Pick(cr, []int{0, 150}), TSOnly: cr.Bool()}
+		k := cr.Range(1, 10)
+		errno := rt.Pick(cr, []string{"ENOSPC", "EIO", "EDQUOT"})
+		base, _ := os.MkdirTemp("", "fs08fault")
+		dir := filepath.Join(base, "d")
+		os.Mkdir(dir, 0o755)
+		ackp := filepath.Join(base, "ack")
+		run.Progress("C08 persistent write fault %d inject=write:error=%s:when=%d+ %+v", i, errno, k, w)
+		c := exec.Command("strace", append([]string{"-f", "-o", filepath.Join(base, "tr"), "-e", "trace=write",
+			"-e", fmt.Sprintf("inject=write:error=%s:when=%d+", errno, k), child}, w.args(dir, ackp)...)...)
+		c.Env = append(os.Environ(), "GOMAXPROCS=1")
+		c.Run()
+		a := readAck(ackp)
+		if !a.done {
+			run.Inconclusive("child did not finish under persistent write-error injection")
+			os.RemoveAll(base)
+			continue
+		}
+		files, _, _ := readAll(dir, nil)
+		cnt := map[string]int{}
+		for _, rs := range files {
+			for _, p := range rs {
+				cnt[p.ID]++
+			}
+		}
+		for _, id := range a.order {
+			if a.acked[id] && cnt[id] != 1 {
+				run.Violation("history-pattern:lost-after-fault", fmt.Sprintf("record %s was acknowledged but occurs %d times in the files (every write from the %d-th on failed with %s)", id, cnt[id], k, errno),
+					map[string]any{"workload": fmt.Sprintf("%+v", w), "acked": a.ackOrd, "called": a.order})
+				break
+			}
+		}
+		run.Add("persistent_fault_runs", 1)
+		run.Add("persistent_fault_unacked", len(a.order)-len(a.acked))
+		run.Eval(fmt.Sprintf("pfault|%s|%d|%v|%d", errno, k, w.TSOnly, w.MaxBytes))
 		os.RemoveAll(base)
 	}
 }
